@@ -111,6 +111,29 @@ def run_live(case):
             "labels": ["heralds-added-after-construction"] if edited_heralds else []}
 
 
+def run_two_mode(case):
+    """Many photons in two modes: |amplitude|^2 against the exact polynomial expansion (C04's reference)."""
+    import lightworks as lw
+    from lightworks import emulator
+    from checks.c04 import exact_two_mode
+    c = call("build", build_real, case["prog"])
+    n0, n1 = case["input"]
+    n = n0 + n1
+    ref = exact_two_mode(c.U, n0, n1)
+    res = call("simulate", emulator.Simulator(c).simulate, lw.State([n0, n1]))
+    arr = np.asarray(res.array)
+    tot = 0.0
+    for j, o in enumerate(res.outputs):
+        p = abs(arr[0, j]) ** 2
+        tot += p
+        if not abs(p - ref.get(tuple(o), 0.0)) <= 1e-9 * (n + 1):
+            raise Violation(f"|amplitude|^2 of |{n0},{n1}> -> {list(o)} is {p:.10g}, exact {ref.get(tuple(o), 0.0):.10g}",
+                            key="amplitude-mismatch")
+    if not abs(tot - 1) <= 1e-8:
+        raise Violation(f"lossless circuit: sum |a|^2 = {tot}", key="not-normalised")
+    return {"nontrivial": n >= 8, "labels": ["photons>=13"] if n >= 13 else []}
+
+
 def run_sim(case):
     import lightworks as lw
     from lightworks import emulator
@@ -227,11 +250,17 @@ def run_bad(case):
     return {"nontrivial": True, "labels": labels}
 
 
+def two_mode():
+    from checks.c04 import two_mode_case
+    return two_mode_case(big=False)
+
+
 def subs(tier):
     q = tier == "quick"
     return [
         Sub("amplitudes", run_sim, strategy=sim_case(big=not q), examples=120 if q else 8000),
         Sub("bunched", run_sim, strategy=bunched_case(big=not q), examples=60 if q else 4000),
+        Sub("many-photons-two-modes", run_two_mode, strategy=two_mode(), examples=20 if q else 300),
         Sub("fully-heralded", run_sim, strategy=fully_heralded_case(), examples=30 if q else 1500),
         Sub("live-circuit", run_live, strategy=live_case(), examples=60 if q else 3000),
         Sub("rejects", run_bad, strategy=bad_case(), examples=60 if q else 2000),
